@@ -67,16 +67,17 @@ func parseConfig(s string, initial int64) Config {
 
 // Sys is the real library under one configuration.
 type Sys struct {
-	cfg     Config
-	base    corestore.KVStoreWithBatch // the bottom database (for raw scans / closing)
-	db      corestore.KVStoreWithBatch // what the tree sees
-	dir     string
-	tree    *iavl.MutableTree
-	wrap    func(corestore.KVStoreWithBatch) corestore.KVStoreWithBatch
-	fastNow bool // fast setting of the current open (may be overridden per reopen)
-	hooks   *hooks
-	pending [][]string // successful uncommitted writes since the last clean point
-	ivDone  bool       // IvLate: SetInitialVersion has been called
+	cfg      Config
+	base     corestore.KVStoreWithBatch // the bottom database (for raw scans / closing)
+	db       corestore.KVStoreWithBatch // what the tree sees
+	dir      string
+	tree     *iavl.MutableTree
+	wrap     func(corestore.KVStoreWithBatch) corestore.KVStoreWithBatch
+	fastNow  bool // fast setting of the current open (may be overridden per reopen)
+	hooks    *hooks
+	pending  [][]string // successful uncommitted writes since the last clean point
+	ivDone   bool       // IvLate: SetInitialVersion has been called
+	ivWrites int        // IvLate: writes before that
 }
 
 func newSys(cfg Config) (*Sys, error) {
@@ -368,12 +369,21 @@ func (s *Sys) execRead(imm *iavl.ImmutableTree, toks []string) string {
 
 // Exec runs one m1 operation and keeps track of the uncommitted writes.
 func (s *Sys) Exec(toks []string) string {
-	if s.cfg.IvLate && !s.ivDone && s.cfg.Initial >= 0 && toks[0] != "set" && toks[0] != "rm" {
-		// the writes so far were made without an initial version; a working-hash query, then the
-		// initial version is set: from here on the tree is the model's tree with that initial version
-		_ = s.tree.WorkingHash()
-		s.tree.SetInitialVersion(uint64(s.cfg.Initial))
-		s.ivDone = true
+	if s.cfg.IvLate && !s.ivDone && s.cfg.Initial >= 0 {
+		if toks[0] != "set" && toks[0] != "rm" {
+			// the writes so far were made without an initial version, with a working-hash query after
+			// every odd-numbered one (so the last query may be followed by a write or not); now the
+			// initial version is set: from here on the tree is the model's tree with that initial version
+			s.tree.SetInitialVersion(uint64(s.cfg.Initial))
+			s.ivDone = true
+		} else {
+			defer func() {
+				s.ivWrites++
+				if s.ivWrites%2 == 1 {
+					_ = s.tree.WorkingHash()
+				}
+			}()
+		}
 	}
 	if toks[0] == "crash" {
 		return s.execCrash(toks[1:])
